@@ -53,6 +53,10 @@ func EvalCheckCallMap(m *modelgen.Model, got map[string]int) []Mismatch {
 	for k := range m.Declared() {
 		declared[EvalNormKey(k)] = true
 	}
+	nDecl := map[string]int{} // overloads share one full name
+	for _, me := range m.Methods() {
+		nDecl[EvalNormKey(me.Full())]++
+	}
 	callers := map[string]map[string]bool{}
 	places := map[string]map[string]bool{} // distinct (caller, line) places per callee
 	for _, me := range m.Methods() {
@@ -86,7 +90,11 @@ func EvalCheckCallMap(m *modelgen.Model, got map[string]int) []Mismatch {
 			}
 			out = append(out, Mismatch{sig, fmt.Sprintf("%q: count %d, the model records %d call sites from %d caller(s)", k, g, want[k], len(callers[k]))})
 		case g > want[k]:
-			out = append(out, Mismatch{"count-too-high", fmt.Sprintf("%q: count %d, the model records %d call sites", k, g, want[k])})
+			sig := "count-too-high"
+			if nDecl[k] > 1 {
+				sig = "count-too-high-name-declared-more-than-once"
+			}
+			out = append(out, Mismatch{sig, fmt.Sprintf("%q (declared %d time(s)): count %d, the model records %d call sites", k, nDecl[k], g, want[k])})
 		}
 	}
 	for _, k := range evalSortedIntKeys(got) {
@@ -132,8 +140,10 @@ func EvalCheckRecordedCounts(declared []string, calls []EvalCallRecord, got map[
 	want := evalNormCounts(EvalCountsFromRecords(declared, calls))
 	got = evalNormCounts(got)
 	isDecl := map[string]bool{}
+	nDecl := map[string]int{}
 	for _, d := range declared {
 		isDecl[EvalNormKey(d)] = true
+		nDecl[EvalNormKey(d)]++
 	}
 	perLine := map[string]map[string]bool{}
 	for _, c := range calls {
@@ -159,7 +169,11 @@ func EvalCheckRecordedCounts(declared []string, calls []EvalCallRecord, got map[
 			}
 			out = append(out, Mismatch{sig, fmt.Sprintf("%q: count %d, the model records %d call sites on %d distinct (caller, line) places", k, g, want[k], len(perLine[k]))})
 		case g > want[k]:
-			out = append(out, Mismatch{"count-too-high", fmt.Sprintf("%q: count %d, the model records %d call sites", k, g, want[k])})
+			sig := "count-too-high"
+			if nDecl[k] > 1 {
+				sig = "count-too-high-name-declared-more-than-once"
+			}
+			out = append(out, Mismatch{sig, fmt.Sprintf("%q (declared %d time(s)): count %d, the model records %d call sites", k, nDecl[k], g, want[k])})
 		}
 	}
 	for _, k := range evalSortedIntKeys(got) {
@@ -290,7 +304,9 @@ func EvalCheckSummary(p *evalgen.Project, got EvalSummary) []Mismatch {
 	byPath := map[string]*evalgen.Method{}
 	for _, c := range p.Classes {
 		for _, m := range c.Methods {
-			byPath[EvalNormKey(EvalMethodPath(c, m))] = m
+			if _, dup := byPath[EvalNormKey(EvalMethodPath(c, m))]; !dup {
+				byPath[EvalNormKey(EvalMethodPath(c, m))] = m // an overload (declared later, never nullable) does not replace the original
+			}
 		}
 	}
 	seen := map[string]int{}
@@ -413,6 +429,16 @@ func EvalCheckConcept(cc *evalgen.ConceptCase, reported []EvalPair) []Mismatch {
 				sig = "concept-sum-too-low-name-begins-with-get-or-set-word"
 			}
 		}
+	}
+	digitRow := ""
+	for _, r := range reported {
+		if r.Key != "" && strings.Trim(r.Key, "0123456789") == "" {
+			digitRow = r.Key
+		}
+	}
+	if sum > want && digitRow != "" {
+		return []Mismatch{{"concept-sum-too-high-digit-group-reported-as-word", fmt.Sprintf("word counts sum to %d, %d words expected; the report lists the digit group %q (%d digits) as a word; method names %v; report: %v",
+			sum, want, digitRow, len(digitRow), cc.Names(), reported)}}
 	}
 	if sum > want {
 		sig = "concept-sum-too-high"
